@@ -4,22 +4,51 @@
    has been processed before a handler runs at clock T is the dispatcher's part: Dispatch/MuxProofs.v, C03.v.) *)
 From Coq Require Import ZArith QArith Qround Lia Lqa List Bool PArith.
 From Basana Require Import Num.DecQ Num.DecQProofs Exchange.Model Exchange.AcctProofs Exchange.StepProofs
-  Exchange.OpProofs Exchange.OrderProofs Exchange.Prims Exchange.FillBounds Exchange.Structure.
+  Exchange.OpProofs Exchange.FeeProofs Exchange.OrderProofs Exchange.LifeProofs Exchange.Prims Exchange.FillBounds
+  Exchange.Structure.
 Import ListNotations.
 Open Scope Q_scope.
 
+Definition fsum (g : fill -> Q) (fs : list fill) : Q := fold_right (fun f acc => g f + acc) 0 fs.
+
+Lemma fsum_app g a b : fsum g (a ++ b) == fsum g a + fsum g b.
+Proof.
+  induction a as [|x r IH]; [cbn [app]; unfold fsum at 2; cbn [fold_right]; lra|].
+  change (g x + fsum g (r ++ b) == (g x + fsum g r) + fsum g b). rewrite IH. lra.
+Qed.
+
+(* [o] is [o0] plus the fills [fs]: same pair, the fill records appended, and the cumulative amounts moved by their sums *)
+Definition grew (P : pair -> fill -> Prop) (J : order -> Prop) (o0 o : order) : Prop :=
+  o_pair o = o_pair o0 /\
+  (exists fs, o_fills o = o_fills o0 ++ fs /\ Forall (P (o_pair o0)) fs /\
+              o_fb o == o_fb o0 + fsum f_base fs /\ o_fq o == o_fq o0 + fsum f_quote fs /\
+              o_fee o == o_fee o0 + fsum f_fee fs) /\
+  (J o0 -> J o).
+
+(* what a fill of the model is: the amounts [balance_updates] proposes for the bar, rounded to the pair's precision,
+   and the fee [calc_fee] charges for them.  [fill_keeps] says that such a fill keeps the order invariant [J]. *)
+Definition fill_keeps (J : order -> Prop) (c : cfg) (l : liq) (o : order) (b : bar) (when : Z) : Prop :=
+  forall hit pi bv0 qv0 bv qv fee,
+    balance_updates c l o b = Ok (Some (bv0, qv0), hit) ->
+    get_pair_info c (o_pair o) = Ok pi ->
+    round_bu pi (Some bv0) (Some qv0) = (Some bv, Some qv) ->
+    calc_fee c (snd pi) (with_hit o hit) qv = Ok fee ->
+    J (with_hit o hit) -> J (add_fill (with_hit o hit) when bv qv (fee_val fee)).
+
 Section Pass.
-Variable P : fill -> Prop.          (* the fills an operation may add *)
+Variable P : pair -> fill -> Prop.  (* the fills an operation may add to an order of a pair *)
+Variable J : order -> Prop.         (* an invariant of single orders, insensitive to their non-monetary fields *)
+Hypothesis J_hit : forall o h, J o -> J (with_hit o h).
+Hypothesis J_state : forall o, J o -> J (with_state o SCanceled).
+Hypothesis J_loans : forall o ids, J o -> J (add_loans o ids).
 Variable os0 : list order.          (* the orders when the operation started *)
 
 (* [o] carries the fills its stored version had at the start, plus allowed ones *)
-Definition ext (o : order) : Prop :=
-  exists o0 fs, nth_error os0 (o_id o) = Some o0 /\ o_fills o = o_fills o0 ++ fs /\ Forall P fs.
+Definition ext (o : order) : Prop := exists o0, nth_error os0 (o_id o) = Some o0 /\ grew P J o0 o.
 
 Definition FT (s : st) : Prop :=
   length (s_orders s) = length os0 /\
-  forall i o0 o, nth_error os0 i = Some o0 -> nth_error (s_orders s) i = Some o ->
-                 exists fs, o_fills o = o_fills o0 ++ fs /\ Forall P fs.
+  forall i o0 o, nth_error os0 i = Some o0 -> nth_error (s_orders s) i = Some o -> grew P J o0 o.
 Definition fp {A} (r : outcome A) : Prop := FT (sof r).
 
 Lemma FT_orders s s' : s_orders s' = s_orders s -> FT s -> FT s'.
@@ -27,11 +56,11 @@ Proof. unfold FT. intros ->. auto. Qed.
 
 Lemma FT_put s o : FT s -> ext o -> FT (put_order s o).
 Proof.
-  intros [Hl Hf] (o0 & fs & H0 & Ef & Hp). unfold FT, put_order. cbn [set_orders s_orders].
+  intros [Hl Hf] (o0 & H0 & Hg). unfold FT, put_order. cbn [set_orders s_orders].
   rewrite length_replace_nth. split; [exact Hl|].
   intros i x0 x Hi. rewrite nth_error_replace_nth. destruct (Nat.eqb i (o_id o)) eqn:E.
   - apply Nat.eqb_eq in E. subst i. destruct (nth_error (s_orders s) (o_id o)); [|discriminate].
-    intros X; inversion X; subst x. rewrite H0 in Hi. inversion Hi; subst x0. exists fs. split; assumption.
+    intros X; inversion X; subst x. rewrite H0 in Hi. inversion Hi; subst x0. exact Hg.
   - apply Hf. exact Hi.
 Qed.
 
@@ -74,16 +103,31 @@ Proof.
 Qed.
 
 Lemma ext_loans o ids : ext o -> ext (add_loans o ids).
-Proof. intros H. exact H. Qed.
-Lemma ext_state o stt : ext o -> ext (with_state o stt).
-Proof. intros H. exact H. Qed.
-Lemma ext_hit o h : ext o -> ext (with_hit o h).
-Proof. intros H. exact H. Qed.
-Lemma ext_fill o w b q f : ext o -> P (mkFill w b q f) -> ext (add_fill o w b q f).
 Proof.
-  intros (o0 & fs & H0 & Ef & Hp) Hw. exists o0, (fs ++ [mkFill w b q f]). split; [exact H0|]. split.
+  intros (o0 & H0 & Epr & Hf & HJ). exists o0. split; [exact H0|]. split; [exact Epr|]. split; [exact Hf|].
+  intros X. apply J_loans. apply HJ. exact X.
+Qed.
+Lemma ext_state o : ext o -> ext (with_state o SCanceled).
+Proof.
+  intros (o0 & H0 & Epr & Hf & HJ). exists o0. split; [exact H0|]. split; [exact Epr|]. split; [exact Hf|].
+  intros X. apply J_state. apply HJ. exact X.
+Qed.
+Lemma ext_hit o h : ext o -> ext (with_hit o h).
+Proof.
+  intros (o0 & H0 & Epr & Hf & HJ). exists o0. split; [exact H0|]. split; [exact Epr|]. split; [exact Hf|].
+  intros X. apply J_hit. apply HJ. exact X.
+Qed.
+Lemma ext_fill o w b q f :
+  ext o -> P (o_pair o) (mkFill w b q f) -> (J o -> J (add_fill o w b q f)) -> ext (add_fill o w b q f).
+Proof.
+  intros (o0 & H0 & Epr & (fs & Ef & Hp & Sb & Sq & Sf) & HJ) Hw Hk. exists o0. split; [exact H0|]. split; [exact Epr|].
+  split; [|intros X; apply Hk; apply HJ; exact X].
+  exists (fs ++ [mkFill w b q f]). split; [|split; [|split; [|split]]].
   - unfold add_fill. cbn [o_fills]. rewrite Ef, app_assoc. reflexivity.
-  - apply Forall_app. split; [exact Hp | constructor; [exact Hw | constructor]].
+  - apply Forall_app. split; [exact Hp | constructor; [rewrite <- Epr; exact Hw | constructor]].
+  - unfold add_fill. cbn [o_fb]. rewrite Qred_correct, fsum_app, Sb. cbn [fsum fold_right f_base]. lra.
+  - unfold add_fill. cbn [o_fq]. rewrite Qred_correct, fsum_app, Sq. cbn [fsum fold_right f_quote]. lra.
+  - unfold add_fill. cbn [o_fee]. rewrite Qred_correct, fsum_app, Sf. cbn [fsum fold_right f_fee]. lra.
 Qed.
 
 Lemma fp_repay_loans c s o : FT s -> ext o -> fp (repay_loans c s o).
@@ -102,9 +146,9 @@ Qed.
 Lemma FT_push_update s o w : FT s -> FT (push_update s o w).
 Proof. intros H. unfold push_update. destruct w; [FT_same|]. destruct (s_now s); [FT_same | exact H]. Qed.
 
-Lemma fp_close_as c s o stt w :
+Lemma fp_close_as c s o w :
   FT s -> ext o ->
-  fp (obind (order_closed c (put_order s (with_state o stt)) (with_state o stt))
+  fp (obind (order_closed c (put_order s (with_state o SCanceled)) (with_state o SCanceled))
             (fun s o2 => Done (push_update s o2 w) tt)).
 Proof.
   intros H He. apply fp_obind.
@@ -119,22 +163,34 @@ Proof.
 Qed.
 
 Lemma fp_process_order c s l o p when b :
-  (forall bq qq fq, P (mkFill when bq qq fq)) -> FT s -> ext o -> fp (process_order c s l o p when b).
+  (forall pr pi bq qq fq, get_pair_info c pr = Ok pi -> on_grid (fst pi) bq -> on_grid (snd pi) qq ->
+                          on_grid (snd pi) fq -> P pr (mkFill when bq qq fq)) ->
+  fill_keeps J c l o b when ->
+  FT s -> ext o -> fp (process_order c s l o p when b).
 Proof.
-  intros Pw H He. unfold process_order.
-  apply fp_obind; [fp_auto|]. intros s1 [u hit] H1.
+  intros Pw Jw H He. unfold process_order.
+  destruct (balance_updates c l o b) as [[u hit]|ebu] eqn:Ebu; cbn [lift obind]; [|unfold fp; cbn [sof]; exact H].
   assert (He1 : ext (with_hit o hit)) by (apply ext_hit; exact He).
-  apply fp_obind; [apply fp_lift; apply FT_put; assumption|]. intros s2 pi H2.
-  destruct (match u with Some (bv, qv) => round_bu pi (Some bv) (Some qv) | None => (None, None) end) as [rb rq].
+  assert (H2 : FT (put_order s (with_hit o hit))) by (apply FT_put; assumption).
+  destruct (get_pair_info c (o_pair (with_hit o hit))) as [pi|epi] eqn:Epi; cbn [lift obind];
+    [|unfold fp; cbn [sof]; exact H2].
+  destruct (match u with Some (bv, qv) => round_bu pi (Some bv) (Some qv) | None => (None, None) end) as [rb rq] eqn:Er.
   destruct rb as [bv|]; [destruct rq as [qv|]|];
     try (apply fp_obind; [apply fp_order_not_filled; assumption | intros; fp_auto]).
-  apply fp_obind; [fp_auto|]. intros s3 fee H3.
+  destruct u as [[b0 q0]|]; [|discriminate Er].
+  assert (G : on_grid (fst pi) bv /\ on_grid (snd pi) qv).
+  { destruct pi as [bp qp]. exact (round_bu_on_grid _ _ _ _ _ _ Er). }
+  destruct (calc_fee c (snd pi) (with_hit o hit) qv) as [fee|ef] eqn:Ef; cbn [lift obind];
+    [|unfold fp; cbn [sof]; exact H2].
+  destruct (fee_charge_nonpos _ _ _ _ _ Ef) as [_ Gf].
   match goal with |- fp (match update_balances ?c ?s ?o ?f with _ => _ end) =>
-    pose proof (fp_update_balances c s o f H3) as Hu; destruct (update_balances c s o f) as [s4 u4|s4 e4] end;
+    pose proof (fp_update_balances c s o f H2) as Hu; destruct (update_balances c s o f) as [s4 u4|s4 e4] end;
     unfold fp in Hu; cbn [sof] in Hu.
   - apply fp_obind; [fp_auto|]. intros s5 l' H5.
     match goal with |- fp (obind (if is_open ?o1 then _ else _) _) =>
-      assert (He2 : ext o1) by (apply ext_fill; [exact He1 | apply Pw]) end.
+      assert (He2 : ext o1)
+        by (apply ext_fill; [exact He1 | apply (Pw _ pi); [exact Epi | apply G | apply G | exact Gf]
+                            | exact (Jw hit pi b0 q0 bv qv fee Ebu Epi Er Ef)]) end.
     apply fp_obind.
     + match goal with |- fp (if ?bb then _ else _) => destruct bb end;
         [unfold fp; cbn [sof]; apply FT_put; assumption
@@ -146,31 +202,49 @@ Qed.
 End Pass.
 
 (* ---------------------------------------------------------------------------------------------- *)
-Lemma FT_refl (P : fill -> Prop) s : FT P (s_orders s) s.
+Section History.
+Variable P : pair -> fill -> Prop.
+Variable J : order -> Prop.
+Hypothesis J_hit : forall o h, J o -> J (with_hit o h).
+Hypothesis J_state : forall o, J o -> J (with_state o SCanceled).
+Hypothesis J_loans : forall o ids, J o -> J (add_loans o ids).
+
+Lemma grew_refl o : grew P J o o.
 Proof.
-  split; [reflexivity|]. intros i o0 o H0 H1. rewrite H0 in H1. inversion H1; subst. exists []. split; [symmetry; apply app_nil_r | constructor].
+  split; [reflexivity|]. split; [|exact (fun X => X)].
+  exists []. unfold fsum; cbn [fold_right]. split; [symmetry; apply app_nil_r|]. split; [constructor|]. split; [|split]; lra.
 Qed.
 
-Lemma ext_of_FT (P : fill -> Prop) os0 s id o :
-  WF s -> FT P os0 s -> get_order s id = Some o -> ext P os0 o.
+Lemma FT_refl s : FT P J (s_orders s) s.
+Proof.
+  split; [reflexivity|]. intros i o0 o H0 H1. rewrite H0 in H1. inversion H1; subst. apply grew_refl.
+Qed.
+
+Lemma ext_of_FT os0 s id o :
+  WF s -> FT P J os0 s -> get_order s id = Some o -> ext P J os0 o.
 Proof.
   intros Hw [Hl Hf] Hg. assert (Eid : o_id o = id) by (destruct Hw as (Ho & _); destruct (Ho _ _ Hg); assumption).
   unfold get_order in Hg.
   destruct (nth_error os0 id) as [o0|] eqn:E0.
-  - destruct (Hf id o0 o E0 Hg) as (fs & Ef & Hp). exists o0, fs. rewrite Eid. split; [exact E0 | split; assumption].
+  - exists o0. rewrite Eid. split; [exact E0 | exact (Hf id o0 o E0 Hg)].
   - apply nth_error_None in E0. assert (id < length (s_orders s))%nat by (apply nth_error_Some; rewrite Hg; discriminate). lia.
 Qed.
 
-Lemma fp_process_all (P : fill -> Prop) os0 c ids p when b :
-  (forall bq qq fq, P (mkFill when bq qq fq)) ->
-  forall s l, WF s -> FT P os0 s -> liq_ok l -> fp P os0 (process_all c s l ids p when b).
+Lemma fp_process_all os0 c ids p when b :
+  (forall pr pi bq qq fq, get_pair_info c pr = Ok pi -> on_grid (fst pi) bq -> on_grid (snd pi) qq ->
+                          on_grid (snd pi) fq -> P pr (mkFill when bq qq fq)) ->
+  (forall l o, OW o -> liq_ok l -> is_open o = true -> fill_keeps J c l o b when) ->
+  forall s l, WF s -> FT P J os0 s -> liq_ok l -> fp P J os0 (process_all c s l ids p when b).
 Proof.
-  intros Pw. induction ids as [|id r IH]; intros s l Hw H Hl; cbn [process_all]; [exact H|].
+  intros Pw Jw. induction ids as [|id r IH]; intros s l Hw H Hl; cbn [process_all]; [exact H|].
   destruct (get_order s id) as [o|] eqn:Eg; [|apply IH; assumption].
   destruct (is_open o && pair_eqb (o_pair o) p) eqn:Eop; [|apply IH; assumption].
   assert (Eid : o_id o = id) by (destruct Hw as (Ho & _); destruct (Ho _ _ Eg); assumption).
   assert (Hg : get_order s (o_id o) = Some o) by (rewrite Eid; exact Eg).
-  pose proof (fp_process_order P os0 c s l o p when b Pw H (ext_of_FT P os0 s id o Hw H Eg)) as F1.
+  assert (Hoo : OW o) by (destruct Hw as (Ho & _); destruct (Ho _ _ Eg); assumption).
+  assert (Hopn : is_open o = true) by (apply andb_true_iff in Eop; apply Eop).
+  pose proof (fp_process_order P J J_hit J_state J_loans os0 c s l o p when b Pw (Jw l o Hoo Hl Hopn) H
+                               (ext_of_FT os0 s id o Hw H Eg)) as F1.
   assert (RR : R c s s) by (split; [exact Hw | split; [apply prims_refl | intros i x Hi _; exact Hi]]).
   assert (Hwo : was_open s (o_id o)).
   { intros x Hx. unfold get_order in Hg. rewrite Hg in Hx. inversion Hx; subst. apply andb_true_iff in Eop. apply Eop. }
@@ -180,78 +254,85 @@ Proof.
 Qed.
 
 (* what one operation does to the fills of the orders *)
-Definition ST (P : fill -> Prop) (s s' : st) : Prop :=
-  (forall i o0, nth_error (s_orders s) i = Some o0 ->
-     exists o fs, nth_error (s_orders s') i = Some o /\ o_fills o = o_fills o0 ++ fs /\ Forall P fs) /\
-  (forall i o, nth_error (s_orders s') i = Some o -> (length (s_orders s) <= i)%nat -> o_fills o = []).
+Definition fresh (o : order) : Prop := o_fills o = [] /\ o_fb o = 0 /\ o_fq o = 0 /\ o_fee o = 0.
+(* what is known of an order that was just accepted: its request passed the validation against the pair's precision *)
+Definition accepted (c : cfg) (o : order) : Prop :=
+  exists pi, get_pair_info c (o_pair o) = Ok pi /\ validate pi (o_kind o) (o_amount o) = Ok tt.
 
-Lemma ST_of_FT (P : fill -> Prop) s s' : FT P (s_orders s) s' -> ST P s s'.
+Definition ST (c : cfg) (s s' : st) : Prop :=
+  (forall i o0, nth_error (s_orders s) i = Some o0 ->
+     exists o, nth_error (s_orders s') i = Some o /\ grew P J o0 o) /\
+  (forall i o, nth_error (s_orders s') i = Some o -> (length (s_orders s) <= i)%nat -> fresh o /\ accepted c o).
+
+Lemma ST_of_FT c s s' : FT P J (s_orders s) s' -> ST c s s'.
 Proof.
   intros [Hl Hf]. split.
   - intros i o0 H0. destruct (nth_error (s_orders s') i) as [o|] eqn:E.
-    + destruct (Hf i o0 o H0 E) as (fs & Ef & Hp). exists o, fs. split; [reflexivity | split; assumption].
+    + exists o. split; [reflexivity | exact (Hf i o0 o H0 E)].
     + apply nth_error_None in E. assert (i < length (s_orders s))%nat by (apply nth_error_Some; rewrite H0; discriminate). lia.
   - intros i o Hi Hle. assert (i < length (s_orders s'))%nat by (apply nth_error_Some; rewrite Hi; discriminate). lia.
 Qed.
 
-Lemma ST_on_bar (P : fill -> Prop) c s p when b :
-  (forall bq qq fq, P (mkFill when bq qq fq)) -> cfg_ok c -> 0 <= b_volume b -> WF s ->
-  ST P s (sof (on_bar c s p when b)).
+Lemma ST_on_bar c s p when b :
+  (forall pr pi bq qq fq, get_pair_info c pr = Ok pi -> on_grid (fst pi) bq -> on_grid (snd pi) qq ->
+                          on_grid (snd pi) fq -> P pr (mkFill when bq qq fq)) ->
+  (forall l o, OW o -> liq_ok l -> is_open o = true -> fill_keeps J c l o b when) -> cfg_ok c -> 0 <= b_volume b -> WF s ->
+  ST c s (sof (on_bar c s p when b)).
 Proof.
-  intros Pw Hc Hv Hw. apply ST_of_FT. unfold on_bar, bump_reindex.
-  match goal with |- FT P _ (sof (obind (process_all c ?s1 ?l0 ?ids p when b) _)) =>
+  intros Pw Jw Hc Hv Hw. apply ST_of_FT. unfold on_bar, bump_reindex.
+  match goal with |- FT P J _ (sof (obind (process_all c ?s1 ?l0 ?ids p when b) _)) =>
     assert (L0 : liq_ok l0);
-    [|pose proof (fp_process_all P (s_orders s) c ids p when b Pw s1 l0 Hw (FT_refl P s) L0) as F;
+    [|pose proof (fp_process_all (s_orders s) c ids p when b Pw Jw s1 l0 Hw (FT_refl s) L0) as F;
       destruct (process_all c s1 l0 ids p when b) as [s2 l2|s2 e2]] end.
   { unfold cfg_ok in Hc. destruct (c_liq c) as [|lp ip]; [exact I|]. cbn [liq_ok].
     split; [lra|]. apply Qmult_le_0_compat; [exact Hv|]. apply Qle_shift_div_l; lra. }
-  - cbn [obind sof] in *. unfold finish_reindex. match goal with |- FT P _ (if ?f then _ else _) => destruct f end; exact F.
+  - cbn [obind sof] in *. unfold finish_reindex. match goal with |- FT P J _ (if ?f then _ else _) => destruct f end; exact F.
   - exact F.
 Qed.
 
-Lemma ST_cancel (P : fill -> Prop) c s id : WF s -> ST P s (sof (cancel_order c s id)).
+Lemma ST_cancel c s id : WF s -> ST c s (sof (cancel_order c s id)).
 Proof.
   intros Hw. apply ST_of_FT. unfold cancel_order. destruct (get_order s id) as [o|] eqn:Eg; [|apply FT_refl].
   destruct (negb (is_open o)); [apply FT_refl|].
   destruct (if o_ar o && negb (Qzero (filled o)) then check_infos c s (s_loans s) else Ok tt); cbn [lift obind]; [|apply FT_refl].
-  apply fp_close_as; [apply FT_refl | apply (ext_of_FT P (s_orders s) s id o Hw (FT_refl P s) Eg)].
+  apply fp_close_as; first [assumption | apply FT_refl | apply (ext_of_FT (s_orders s) s id o Hw (FT_refl s) Eg)].
 Qed.
 
-Lemma ST_same_orders (P : fill -> Prop) s s' : s_orders s' = s_orders s -> ST P s s'.
-Proof. intros E. apply ST_of_FT. apply (FT_orders P (s_orders s) s s' E). apply FT_refl. Qed.
+Lemma ST_same_orders c s s' : s_orders s' = s_orders s -> ST c s s'.
+Proof. intros E. apply ST_of_FT. apply (FT_orders P J (s_orders s) s s' E). apply FT_refl. Qed.
 
-Lemma ST_create_loan (P : fill -> Prop) c s x a : WF s -> ST P s (sof (create_loan c s x a)).
+Lemma ST_create_loan c s x a : WF s -> ST c s (sof (create_loan c s x a)).
 Proof.
   intros Hw. apply ST_same_orders.
   destruct (rpf_create_loan c s s x a) as [_ [Fo _]]; [|exact Fo].
   split; [exact Hw | split; [apply prims_refl | intros i o Hi _; exact Hi]].
 Qed.
 
-Lemma ST_repay_loan (P : fill -> Prop) c s id : WF s -> ST P s (sof (repay_loan c s id)).
+Lemma ST_repay_loan c s id : WF s -> ST c s (sof (repay_loan c s id)).
 Proof.
   intros Hw. apply ST_same_orders.
   destruct (rpf_repay_loan c s s id) as [_ [Fo _]]; [|exact Fo].
   split; [exact Hw | split; [apply prims_refl | intros i o Hi _; exact Hi]].
 Qed.
 
-Lemma ST_list_open (P : fill -> Prop) s p : ST P s (fst (list_open s p)).
+Lemma ST_list_open c s p : ST c s (fst (list_open s p)).
 Proof.
   apply ST_same_orders. unfold list_open, bump_reindex, finish_reindex.
   match goal with |- context [if ?f then _ else _] => destruct f end; reflexivity.
 Qed.
 
 (* accepting an order: the orders that were there keep their fills, the new one has none *)
-Lemma ST_create_order (P : fill -> Prop) c s k op p amount ab ar :
-  WF s -> ST P s (sof (create_order c s k op p amount ab ar)).
+Lemma ST_create_order c s k op p amount ab ar :
+  WF s -> ST c s (sof (create_order c s k op p amount ab ar)).
 Proof.
   intros Hw. unfold create_order.
-  destruct (get_pair_info c p); cbn [lift obind sof]; [|apply ST_same_orders; reflexivity].
-  destruct (validate _ k amount); cbn [lift obind sof]; [|apply ST_same_orders; reflexivity].
+  destruct (get_pair_info c p) as [pi0|] eqn:Epi0; cbn [lift obind sof]; [|apply ST_same_orders; reflexivity].
+  destruct (validate pi0 k amount) as [[]|] eqn:Eva; cbn [lift obind sof]; [|apply ST_same_orders; reflexivity].
   unfold add_order.
   match goal with |- context [estimate_required c s ?o] => destruct (estimate_required c s o) as [req|e] end;
     cbn [lift obind sof]; [|apply ST_same_orders; reflexivity].
   (* borrowing and reserving keep the orders *)
-  match goal with |- ST P s (sof (obind ?r _)) =>
+  match goal with |- ST c s (sof (obind ?r _)) =>
     assert (Eo : s_orders (sof r) = s_orders s);
     [|destruct r as [sx lids|sx ex]; cbn [obind sof] in *] end.
   - destruct (vnonempty req); [|reflexivity]. cbn [o_ab].
@@ -263,33 +344,41 @@ Proof.
       cbn [obind sof] in *; [|exact E1].
     unfold upd_acct. destruct (acct_update _ _ _ _ _); cbn [obind sof]; exact E1.
   - (* accepted: one more order, without fills *)
-    match goal with |- ST P s ?fs => assert (Ef : exists o', s_orders fs = s_orders s ++ [o'] /\ o_fills o' = []) end.
-    { eexists. split.
+    match goal with |- ST c s ?fs =>
+      assert (Ef : exists o', s_orders fs = s_orders s ++ [o'] /\ fresh o' /\ accepted c o') end.
+    { eexists. split; [|split].
       - unfold push_update. cbn [set_open_idx set_orders s_now]. destruct (s_now sx); cbn [add_event set_open_idx set_orders s_orders];
           rewrite Eo; reflexivity.
-      - reflexivity. }
-    destruct Ef as (o' & Ef & Efl). split.
-    + intros i o0 H0. rewrite Ef. exists o0, []. split; [|split; [symmetry; apply app_nil_r | constructor]].
+      - repeat split; reflexivity.
+      - exists pi0. cbn [o_pair o_kind o_amount]. split; [exact Epi0 | exact Eva]. }
+    destruct Ef as (o' & Ef & Efl & Eacc). split.
+    + intros i o0 H0. rewrite Ef. exists o0. split; [|apply grew_refl].
       rewrite nth_error_app1; [exact H0 | apply nth_error_Some; rewrite H0; discriminate].
     + intros i o Hi Hle. rewrite Ef, nth_error_snoc in Hi. destruct (Nat.eqb i (length (s_orders s))) eqn:E.
-      * inversion Hi; subst. exact Efl.
+      * inversion Hi; subst. split; [exact Efl | exact Eacc].
       * apply Nat.eqb_neq in E. assert (i < length (s_orders s))%nat by (apply nth_error_Some; rewrite Hi; discriminate). lia.
   - apply ST_same_orders. exact Eo.
 Qed.
 
-Theorem step_ST (P : fill -> Prop) c s o :
+Theorem step_ST c s o :
   cfg_ok c -> op_ok o -> WF s ->
-  (forall p w b, o = OBar p w b -> forall bq qq fq, P (mkFill w bq qq fq)) ->
-  ST P s (fst (step c s o)).
+  (forall p w b, o = OBar p w b ->
+     forall pr pi bq qq fq, get_pair_info c pr = Ok pi -> on_grid (fst pi) bq -> on_grid (snd pi) qq ->
+                            on_grid (snd pi) fq -> P pr (mkFill w bq qq fq)) ->
+  (forall p w b, o = OBar p w b -> forall l x, OW x -> liq_ok l -> is_open x = true -> fill_keeps J c l x b w) ->
+  ST c s (fst (step c s o)).
 Proof.
-  intros Hc Ho Hw Hp. destruct o; cbn [step op_ok] in *.
-  - pose proof (ST_on_bar P c s p when b (Hp p when b eq_refl) Hc Ho Hw) as X. destruct (on_bar c s p when b); exact X.
-  - pose proof (ST_create_order P c s k o p amount ab ar Hw) as X. destruct (create_order _ _ _ _ _ _ _ _); exact X.
-  - pose proof (ST_cancel P c s id Hw) as X. destruct (cancel_order c s id); exact X.
-  - pose proof (ST_create_loan P c s x amount Hw) as X. destruct (create_loan c s x amount); exact X.
-  - pose proof (ST_repay_loan P c s id Hw) as X. destruct (repay_loan c s id); exact X.
-  - pose proof (ST_list_open P s p) as X. destruct (list_open s p). exact X.
+  intros Hc Ho Hw Hp HJ. destruct o; cbn [step op_ok] in *.
+  - pose proof (ST_on_bar c s p when b (Hp p when b eq_refl) (HJ p when b eq_refl) Hc Ho Hw) as X.
+    destruct (on_bar c s p when b); exact X.
+  - pose proof (ST_create_order c s k o p amount ab ar Hw) as X. destruct (create_order _ _ _ _ _ _ _ _); exact X.
+  - pose proof (ST_cancel c s id Hw) as X. destruct (cancel_order c s id); exact X.
+  - pose proof (ST_create_loan c s x amount Hw) as X. destruct (create_loan c s x amount); exact X.
+  - pose proof (ST_repay_loan c s id Hw) as X. destruct (repay_loan c s id); exact X.
+  - pose proof (ST_list_open c s p) as X. destruct (list_open s p). exact X.
 Qed.
+End History.
+
 
 (* C03 (exchange side): the orders accepted during [ops] are only ever filled by the bars of [ops]; if all of those are
    dated later than T, so is every fill of every such order *)
@@ -302,15 +391,17 @@ Lemma fills_later_gen c ops T n0 : forall s,
 Proof.
   unfold run. induction ops as [|op r IH]; intros s Hc Ho Hw Hbars Hinv; cbn [fold_left]; [exact Hinv|].
   inversion Ho as [|? ? Ho1 Hor]; subst.
-  assert (S1 : ST (fun f => (T < f_when f)%Z) s (fst (step c s op))).
-  { apply step_ST; try assumption. intros p w b -> bq qq fq. cbn [f_when]. apply (Hbars p w b). left; reflexivity. }
+  assert (S1 : ST (fun _ f => (T < f_when f)%Z) (fun _ => True) c s (fst (step c s op))).
+  { apply step_ST; try assumption; auto.
+    - intros p w b -> pr pi bq qq fq _ _ _ _. cbn [f_when]. apply (Hbars p w b). left; reflexivity.
+    - intros p w b _ l x _ _ _ hit pi bv0 qv0 bv qv fee _ _ _ _ _. exact I. }
   apply (IH (fst (step c s op)) Hc Hor (proj1 (step_prims c s op Hc Ho1 Hw))
             (fun p w b Hin => Hbars p w b (or_intror Hin))).
   intros i o Hi Hn. destruct S1 as [S1a S1b].
   destruct (nth_error (s_orders s) i) as [o0|] eqn:E0.
-  - destruct (S1a i o0 E0) as (o1 & fs & E1 & Ef & Hp). rewrite E1 in Hi. inversion Hi; subst o1.
+  - destruct (S1a i o0 E0) as (o1 & E1 & _ & (fs & Ef & Hp & _) & _). rewrite E1 in Hi. inversion Hi; subst o1.
     rewrite Ef. apply Forall_app. split; [apply (Hinv i o0 E0 Hn) | exact Hp].
-  - apply nth_error_None in E0. rewrite (S1b i o Hi E0). constructor.
+  - apply nth_error_None in E0. destruct (S1b i o Hi E0) as [[Efl _] _]. rewrite Efl. constructor.
 Qed.
 
 Theorem fills_only_from_later_bars c s ops T i o :
